@@ -30,7 +30,7 @@ from . import core, tstr
 from .core import EngineLimit, Sym, SymBool, SymFloat, SymInt
 from .tstr import TStr, has_sym
 
-BUILTIN_CALLS = {"len", "int", "float", "str", "repr", "hash", "range", "print", "min", "max", "format", "bytes"}
+BUILTIN_CALLS = {"len", "int", "float", "str", "repr", "hash", "range", "print", "min", "max", "format", "bytes", "bytearray"}
 STR_METHODS = {
     "join", "replace", "split", "count", "startswith", "endswith", "encode", "decode",
     "lower", "upper", "lstrip", "rstrip", "strip", "partition", "rpartition",
@@ -78,7 +78,7 @@ def sx_len(x):
 
 def sx_int(x=0, *a):
     if type(x).__name__ == "CStr":
-        return x.to_int(*a)
+        return x.to_int(*a) if _active() else int(x.concretize(), *a)
     if isinstance(x, SymInt):
         return x
     if isinstance(x, SymBool):
@@ -227,7 +227,17 @@ def sx_format(v, spec=""):
 def sx_bytes(*a, **k):
     if a and isinstance(a[0], TStr):
         return a[0].encode()
+    if a and type(a[0]).__name__ == "CStr":
+        return a[0]
     return bytes(*a, **k)
+
+
+def sx_bytearray(*a, **k):
+    if _active() and not a:
+        from .rx import CStr
+
+        return CStr([])  # a growable string of (possibly symbolic) byte values
+    return bytearray(*a, **k)
 
 
 def sx_meth(obj, name, *args, **kw):
@@ -267,6 +277,7 @@ SX_GLOBALS = {
     "_sx_max": sx_max,
     "_sx_format": sx_format,
     "_sx_bytes": sx_bytes,
+    "_sx_bytearray": sx_bytearray,
     "_sx_meth": sx_meth,
 }
 
@@ -306,6 +317,11 @@ class Lifter(ast.NodeTransformer):
     def visit_Call(self, node):
         self.generic_visit(node)
         f = node.func
+        if isinstance(f, ast.Name) and f.id == "map" and node.args and isinstance(node.args[0], ast.Name) and node.args[0].id == "int":
+            # map(int, xs): the conversion must go through the int shim as well
+            self.count += 1
+            node.args[0] = ast.copy_location(self._name("int"), node.args[0])
+            return node
         if isinstance(f, ast.Name) and f.id in BUILTIN_CALLS:
             self.count += 1
             node.func = ast.copy_location(self._name(f.id), f)
@@ -363,7 +379,7 @@ def repo_root():
     return os.environ.get("TERM_IMAGE_REPO", "/repo")
 
 
-def install(lift=True):
+def install(lift=True, eager_image=True):
     """Make ``import term_image`` load the (lifted) modules of $TERM_IMAGE_REPO."""
     src = os.path.join(repo_root(), "src")
     for m in [m for m in sys.modules if m == "term_image" or m.startswith("term_image.")]:
@@ -398,7 +414,9 @@ def install(lift=True):
         with warnings.catch_warnings():
             warnings.simplefilter("ignore")
             import term_image  # noqa: F401
-            import term_image.image  # noqa: F401
+
+            if eager_image:
+                import term_image.image  # noqa: F401
     finally:
         os.ttyname, os.open = real_ttyname, real_open
 
